@@ -1150,6 +1150,40 @@ Qed.
     comparison on (sign, e, m) is the comparison of the keys.  The axioms Print Assumptions lists for these two theorems
     (ClassicalDedekindReals.sig_not_dec, sig_forall_dec, FunctionalExtensionality.functional_extensionality_dep,
     Classical_Prop.classic) enter only through Flocq's definition of binary floats over Coq's reals. *)
+(** the hypotheses of compare_sound / overlap_sound / page_might_match_sound / filter_exact are satisfiable *)
+Example helper_hypotheses_nontrivial :
+  let i32 (x : N) := [x mod 256; (x / 256) mod 256; 0; 0]%N in
+  let data := [i32 5%N; i32 1000%N; i32 1%N] in
+  lower_ok TInt32 (Some (i32 1%N)) data /\ upper_ok TInt32 (Some (i32 1000%N)) data /\
+  (exists v, In v data /\ sat TInt32 OpGe v (i32 0%N) = true /\ sat TInt32 OpLe v (i32 256%N) = true /\ sat TInt32 OpEq v (i32 5%N) = true) /\
+  page_wf (mkPage 0 (Some (i32 1%N)) (Some (i32 1000%N)) false) /\
+  statistics_compare (mkPS false 0 (Some (i32 1%N)) (Some (i32 1000%N)) None None) TInt32 (i32 5%N) = SOk 0 /\
+  range_overlaps (mkPS false 0 (Some (i32 1%N)) (Some (i32 1000%N)) None None) TInt32 (Some (i32 0%N)) (Some (i32 256%N)) = SOk true.
+Proof.
+  cbv zeta. split; [|split; [|split; [|split; [|split]]]].
+  - intros m E. injection E as <-. split; [vm_compute; lia|]. split; [reflexivity|].
+    intros v [<-|[<-|[<-|[]]]] _; vm_compute; discriminate.
+  - intros m E. injection E as <-. split; [vm_compute; lia|]. split; [reflexivity|].
+    intros v [<-|[<-|[<-|[]]]] _; vm_compute; discriminate.
+  - eexists. split; [left; reflexivity|]. repeat split; vm_compute; reflexivity.
+  - split; discriminate.
+  - vm_compute. reflexivity.
+  - vm_compute. reflexivity.
+Qed.
+
+Example no_fault_nontrivial :
+  let i32 (x : N) := [x mod 256; (x / 256) mod 256; 0; 0]%N in
+  let ch mn mx := mkChunk true 3 (Some (mkPS true 0 (Some (i32 mn)) (Some (i32 mx)) None None)) in
+  let r := mkRdr [[ch 1%N 10%N]; [ch 20%N 30%N]; [mkChunk true 2 None]] [Some TInt32] in
+  no_fault r 0 (op_code OpLt) (i32 15%N) /\
+  filter_row_groups r 0 (op_code OpLt) (i32 15%N) 5 = SOk (Some [0; 2]).
+Proof.
+  cbv zeta. split; [|vm_compute; reflexivity].
+  intros i f. unfold row_group_matches, column_statistics, nth_z. cbn [r_row_groups].
+  destruct (i <? 0); [discriminate|].
+  destruct (Z.to_nat i) as [|[|[|k]]]; vm_compute; discriminate.
+Qed.
+
 From Coq Require Import Floats.SpecFloat ZifyN ZifyBool.
 Module FloatLink.
 Import Flocq.IEEE754.Binary Flocq.IEEE754.Bits.
